@@ -229,6 +229,19 @@ def run(ck, F, E):
                     w.add(fs[-1]["name"])
         ck.require(w == {"enable_warnings", "enable_tracing"}, "C15:CONFIG:options-applied", "R-CONFIG",
                    "warnings -> enable_warnings, tracing -> enable_tracing", "the options are applied as %s" % sorted(w), cf.span)
+    # create_interpreter is what the interactive / piped session gets its interpreter from: it must apply the options itself
+    if ca is not None and F.one("CliArgs::configure_interpreter", "abasic") is not None:
+        pd = ca.postdominators().get(0, set()) | {0}
+        cs = [c for c in ca.calls() if sfx(c.callee, "CliArgs::configure_interpreter") and c.bb in pd]
+        direct = set()
+        for b2, i2, pl2, rv2, sp2 in ca.assigns():
+            fs = [p for p in pl2["proj"] if p["k"] == "field"]
+            if fs and fs[-1].get("name") in ("enable_warnings", "enable_tracing") and b2 in pd:
+                direct.add(fs[-1]["name"])
+        ck.require(bool(cs) or direct == {"enable_warnings", "enable_tracing"}, "C15:CONFIG:create-configures", "R-CONFIG",
+                   "create_interpreter passes the new interpreter through configure_interpreter on every path",
+                   "CliArgs::create_interpreter no longer applies the command-line options to the interpreter it builds: the "
+                   "interactive / piped session ignores -w and -t while `abasic FILE` (configured separately) honours them", ca.span)
     # "with or without the static check": `abasic FILE` refuses to run a file the checker objects to, so the checker must not
     # object to operand kinds the interpreter accepts (NOT of a string, comparisons of strings, ..): C06's kind tables,
     # filed under this property as well
